@@ -17,7 +17,7 @@ package main
 //	o.dec  T|hex   impl   = value the REFERENCE decodes (mutated / malformed bytes), oracle = -, model = spec_decode:
 //	               ties the Coq transcription of the encoding specification to the reference implementation
 //
-// A suffix on the case name (.f17 .emap .zzrep .boolpad) names a class of inputs on which the package is known
+// A suffix on the case name (.f17 .emap .zzrep .zzstruct) names a class of inputs on which the package is known
 // to deviate (reported to the main session); the class is decided from the input alone.
 
 import (
@@ -39,7 +39,7 @@ import (
 
 func init() {
 	register("c12", c12)
-	for _, sfx := range []string{"", ".f17", ".emap", ".zzrep", ".boolpad"} {
+	for _, sfx := range []string{"", ".f17", ".emap", ".zzrep", ".zzstruct"} {
 		replayers["w.std"+sfx] = func(a []string) { t, v := tvArgs(a); wStd(t, v) }
 		replayers["w.dec"+sfx] = func(a []string) {
 			f := strings.Split(strings.Join(a, " "), "|")
@@ -51,7 +51,7 @@ func init() {
 		oDec(tyFromSx(parseSx(f[0])), unhex(f[1]))
 	}
 	replayers["w.type"] = func(a []string) { wType(tyFromSx(parseSx(strings.Join(a, " ")))) }
-	replayers["w.type.fixtag"] = replayers["w.type"]
+	replayers["w.type.zzrep"] = replayers["w.type"]
 }
 
 // ---------------------------------------------------------------------------------------------
@@ -556,8 +556,29 @@ func typeHasZigzagRep(t *pty) bool {
 	return false
 }
 
+// typeHasZigzagStruct: a zigzag tag on a field whose type is a struct or a pointer to a struct (never written by
+// protoc-gen-go): the struct codec hands its flags down, so the integers INSIDE the message are zig-zag coded
+func typeHasZigzagStruct(t *pty) bool {
+	switch t.k {
+	case kPtr, kSlice, kMap:
+		return typeHasZigzagStruct(t.elem)
+	case kStruct:
+		for _, f := range t.fields {
+			if f.tag != nil && f.tag.zigzag && stripPtr(f.t).k == kStruct {
+				return true
+			}
+			if typeHasZigzagStruct(f.t) {
+				return true
+			}
+		}
+	}
+	return false
+}
+
 func stdClass(t *pty, v *pval) string {
 	switch {
+	case typeHasZigzagStruct(t):
+		return ".zzstruct"
 	case hasZigzagRep(t, v):
 		return ".zzrep"
 	case hasEmptyMap(t, v):
@@ -965,14 +986,14 @@ func hasEntryWithoutPtrValue(t *pty, b []byte) bool {
 
 func wDec(t *pty, b []byte) {
 	fn := "w.dec"
-	if hasZigzagRepRecord(t, b) {
+	if typeHasZigzagStruct(t) {
+		fn += ".zzstruct"
+	} else if hasZigzagRepRecord(t, b) {
 		fn += ".zzrep"
 	} else if hasEmptyEntryRecord(t, b) {
 		fn += ".emap"
 	} else if hasEntryWithoutPtrValue(t, b) {
 		fn += ".f17"
-	} else if hasPaddedBool(t, b) {
-		fn += ".boolpad"
 	}
 	if !mine() {
 		skip()
@@ -1057,21 +1078,17 @@ func typeOfText(pt segproto.Type) string {
 	return pt.Name()
 }
 
-// typeHasFixedTag: a uint32/uint64 field tagged fixed32/fixed64 (TypeOf reports the varint kind)
-func typeHasFixedTag(t *pty) bool {
+// typeHasFixedRep: a repeated uint32/uint64 field tagged fixed32/fixed64
+func typeHasFixedRep(t *pty) bool {
 	switch t.k {
 	case kPtr, kSlice, kMap:
-		return typeHasFixedTag(t.elem)
+		return typeHasFixedRep(t.elem)
 	case kStruct:
 		for _, f := range t.fields {
-			b := stripPtr(f.t)
-			if b.k == kSlice {
-				b = stripPtr(b.elem)
-			}
-			if f.tag != nil && ((f.tag.wire == 5 && b.k == kUint32) || (f.tag.wire == 1 && b.k == kUint64)) {
+			if repTagVariant(&f) && !f.tag.zigzag {
 				return true
 			}
-			if typeHasFixedTag(f.t) {
+			if typeHasFixedRep(f.t) {
 				return true
 			}
 		}
@@ -1105,8 +1122,8 @@ func wType(t *pty) {
 	}
 	impl := guarded(func() string { return typeOfText(segproto.TypeOf(t.goType())) })
 	fn := "w.type"
-	if typeHasFixedTag(t) {
-		fn += ".fixtag"
+	if typeHasFixedRep(t) {
+		fn += ".zzrep" // known finding F33: TypeOf reports what the slice codec writes (varint), not the tagged variant
 	}
 	emit(fn, t.String(), impl, protoText(t))
 }
@@ -1121,6 +1138,8 @@ var c12Fixed = []string{
 	"(struct (f - (struct (f - int) (f - (slice i64)) (f - (struct (f - str) (f - bool))))) (f - str))",
 	"(struct (f (t 0 3 1 1) (slice i64)) (f (t 0 1 0 1) i32))",
 	"(struct (f (t 5 1 1 0) (slice u32)) (f (t 1 2 1 0) (slice u64)) (f (t 5 3 1 0) (slice f32)))",
+	"(struct (f (t 2 1 0 1) (struct (f - i64) (f - str))) (f - i32))",
+	"(struct (f (t 2 1 0 1) (ptr (struct (f - int) (f (t 0 2 0 1) i32)))))",
 	"(struct (f - (arr 8)) (f - (arr 0)) (f - bytes))",
 	"(struct (f - (slice (ptr i32))) (f - (slice (ptr (struct (f - bool))))))",
 	"(struct (f - (map u64 (ptr (struct (f - (ptr int)) (f - (map str int)))))))",
